@@ -96,18 +96,17 @@ theorem steps_forward (s e n : Nat) (hs : canon s) (he : canon e)
 
 /-- The `usize` pair returned by `Step::steps_between` on the 64-bit target. -/
 theorem stepsBetweenImpl_eq (s e : Nat) (hs : canon s) (he : canon e) :
-    VirtAddr.stepsBetweenImpl s e =
-      match stepsSpec s e with | some d => (d, some d) | none => (0, none) := by
-  unfold VirtAddr.stepsBetweenImpl; rw [steps_eq_spec s e hs he]; cases stepsSpec s e <;> rfl
+    VirtAddr.stepsBetweenImpl s e = stepsPairSpec 1 s e := by
+  unfold VirtAddr.stepsBetweenImpl stepsPairSpec; rw [steps_eq_spec s e hs he]
+  cases stepsSpec s e <;> simp only [Nat.div_one]
 
 /-! #### Pages of the three sizes step in whole pages -/
 
 /-- Stepping a page forward by `n` = stepping its start address by `n * SIZE`;
 `none` when `n * SIZE` overflows or the position does not exist. -/
 theorem page_forward_eq_spec (sz p n : Nat) (hsz : pageSize sz) (hp : canon p) (_hn : n < 2^64) :
-    Page.forwardChecked sz p n =
-      if rank p + n * sz < 2^48 then some (unrank (rank p + n * sz)) else none := by
-  unfold Page.forwardChecked checkedMul
+    Page.forwardChecked sz p n = pageForwardSpec sz p n := by
+  unfold Page.forwardChecked checkedMul pageForwardSpec
   by_cases h : n * sz < 2^64
   · simp only [h, if_true]; rw [forward_eq_spec p _ hp h]; rfl
   · simp only [h, if_false]
@@ -115,9 +114,8 @@ theorem page_forward_eq_spec (sz p n : Nat) (hsz : pageSize sz) (hp : canon p) (
     rcases hsz with h' | h' | h' <;> subst h' <;> arith_split
 
 theorem page_backward_eq_spec (sz p n : Nat) (hsz : pageSize sz) (hp : canon p) (_hn : n < 2^64) :
-    Page.backwardChecked sz p n =
-      if n * sz ≤ rank p then some (unrank (rank p - n * sz)) else none := by
-  unfold Page.backwardChecked checkedMul
+    Page.backwardChecked sz p n = pageBackwardSpec sz p n := by
+  unfold Page.backwardChecked checkedMul pageBackwardSpec
   by_cases h : n * sz < 2^64
   · simp only [h, if_true]; rw [backward_eq_spec p _ hp h]; rfl
   · simp only [h, if_false]
@@ -129,21 +127,20 @@ theorem page_forward_aligned (sz p n q : Nat) (hsz : pageSize sz) (hp : canon p)
     (hal : p % sz = 0) (h : Page.forwardChecked sz p n = some q) : q % sz = 0 ∧ canon q := by
   rw [page_forward_eq_spec sz p n hsz hp hn] at h
   unfold canon at hp ⊢
-  simp only [unrank] at h
+  simp only [unrank, pageForwardSpec, pageBackwardSpec] at h
   rcases hsz with h' | h' | h' <;> subst h' <;> arith_split
 
 theorem page_backward_aligned (sz p n q : Nat) (hsz : pageSize sz) (hp : canon p) (hn : n < 2^64)
     (hal : p % sz = 0) (h : Page.backwardChecked sz p n = some q) : q % sz = 0 ∧ canon q := by
   rw [page_backward_eq_spec sz p n hsz hp hn] at h
   unfold canon at hp ⊢
-  simp only [unrank] at h
+  simp only [unrank, pageForwardSpec, pageBackwardSpec] at h
   rcases hsz with h' | h' | h' <;> subst h' <;> arith_split
 
 /-- Steps between two pages = rank distance in pages. -/
 theorem page_steps_eq_spec (sz s e : Nat) (hs : canon s) (he : canon e) :
-    Page.stepsBetweenImpl sz s e =
-      match stepsSpec s e with | some d => (d / sz, some (d / sz)) | none => (0, none) := by
-  unfold Page.stepsBetweenImpl; rw [steps_eq_spec s e hs he]; cases stepsSpec s e <;> rfl
+    Page.stepsBetweenImpl sz s e = stepsPairSpec sz s e := by
+  unfold Page.stepsBetweenImpl stepsPairSpec; rw [steps_eq_spec s e hs he]; cases stepsSpec s e <;> rfl
 
 /-- For aligned pages the byte distance is a whole number of pages, so stepping forward by the
 reported page count lands exactly on the end page (and stepping back returns to the start). -/
@@ -154,12 +151,12 @@ theorem page_steps_forward (sz s e d : Nat) (hsz : pageSize sz) (hs : canon s) (
   rw [page_steps_eq_spec sz s e hs he] at h
   have hd : d < 2^64 ∧ rank s ≤ rank e ∧ d = (rank e - rank s) / sz := by
     unfold canon at hs he
-    simp only [stepsSpec] at h
+    simp only [stepsSpec, stepsPairSpec] at h
     rcases hsz with h' | h' | h' <;> subst h' <;> arith_split
   rw [page_forward_eq_spec sz s d hsz hs hd.1, page_backward_eq_spec sz e d hsz he hd.1]
   obtain ⟨_, h1, h2⟩ := hd
   unfold canon at hs he
-  simp only [unrank]
+  simp only [unrank, pageForwardSpec, pageBackwardSpec]
   rcases hsz with h' | h' | h' <;> subst h' <;> (constructor <;> arith_split)
 
 /-- Forward then backward by the same page count returns to the start, and the page distance is the count. -/
@@ -170,36 +167,37 @@ theorem page_forward_backward (sz p n q : Nat) (hsz : pageSize sz) (hp : canon p
   rw [page_backward_eq_spec sz q n hsz hq hn, page_steps_eq_spec sz p q hp hq]
   rw [page_forward_eq_spec sz p n hsz hp hn] at h
   unfold canon at hp hq
-  simp only [unrank, stepsSpec] at h ⊢
+  simp only [unrank, stepsSpec, stepsPairSpec, pageForwardSpec, pageBackwardSpec] at h ⊢
   rcases hsz with h' | h' | h' <;> subst h' <;> (constructor <;> arith_split)
 
 /-! #### Table indices step within 0..512 -/
 
 theorem index_forward (i n : Nat) (_hi : i < 512) (_hn : n < 2^64) :
-    PageTableIndex.forwardChecked i n = if i + n < 512 then some (i + n) else none := by
-  simp only [PageTableIndex.forwardChecked, checkedAdd]
+    PageTableIndex.forwardChecked i n = indexForwardSpec i n := by
+  simp only [PageTableIndex.forwardChecked, checkedAdd, indexForwardSpec]
   arith_split
 
 theorem index_backward (i n : Nat) :
-    PageTableIndex.backwardChecked i n = if n ≤ i then some (i - n) else none := by
-  simp only [PageTableIndex.backwardChecked, checkedSub]
+    PageTableIndex.backwardChecked i n = indexBackwardSpec i n := by
+  simp only [PageTableIndex.backwardChecked, checkedSub, indexBackwardSpec]
 
 theorem index_steps (s e : Nat) :
-    PageTableIndex.stepsBetween s e = if s ≤ e then (e - s, some (e - s)) else (0, none) := rfl
+    PageTableIndex.stepsBetween s e = indexStepsSpec s e := rfl
 
 theorem index_forward_range (i n j : Nat) (hi : i < 512) (hn : n < 2^64)
     (h : PageTableIndex.forwardChecked i n = some j) : j < 512 := by
-  rw [index_forward i n hi hn] at h; arith_split
+  rw [index_forward i n hi hn] at h; unfold indexForwardSpec at h; arith_split
 
 theorem index_backward_range (i n j : Nat) (hi : i < 512)
     (h : PageTableIndex.backwardChecked i n = some j) : j < 512 := by
-  rw [index_backward] at h; arith_split
+  rw [index_backward] at h; unfold indexBackwardSpec at h; arith_split
 
 /-- Index stepping is mutually inverse as well. -/
 theorem index_forward_backward (i n j : Nat) (hi : i < 512) (hn : n < 2^64)
     (h : PageTableIndex.forwardChecked i n = some j) :
     PageTableIndex.backwardChecked j n = some i ∧ (PageTableIndex.stepsBetween i j).2 = some n := by
   rw [index_forward i n hi hn] at h; rw [index_backward, index_steps]
+  unfold indexForwardSpec at h; unfold indexBackwardSpec indexStepsSpec
   constructor <;> arith_split
 
 /-! #### Non-vacuity: the hypotheses are met by concrete, non-trivial operands -/
